@@ -23,10 +23,13 @@ const (
 	// (commit-only change) is then lost by a power cut while the durable index
 	// still points to it: the replica's hard state reads back empty.
 	SigS9 = "tan-crash-index-durable-before-log-synced"
-	// SigS11: tan ImportSnapshot starts a new log file without saving the index
-	// of the current one; a power cut before the following manifest edit leaves
-	// two log files without index and open() panics forever after.
-	SigS11 = "tan-crash-in-importsnapshot-db-unopenable"
+	// SigS11: tan ImportSnapshot is not crash-atomic. It starts a new log file
+	// without saving the index of the current one (a power cut before the next
+	// manifest edit leaves two log files without index: open() panics forever
+	// after), then drops all log files from the manifest before the record with
+	// the imported snapshot is durable (a power cut there leaves the replica with
+	// neither its old data nor the snapshot).
+	SigS11 = "tan-crash-in-importsnapshot-not-atomic"
 )
 
 // C09Rule is the generation / non-triviality rule reported in the evidence.
@@ -76,7 +79,7 @@ func (c *c09run) checkAll(after string) bool {
 		}
 		vfhelp.Fail(c.t, c.tr.Name+"-"+mis.Sig, "%s", msg)
 	}
-	if mis := CheckNodeList(c.s.DB, c.m); mis != nil {
+	if mis := CheckNodeList(c.s.DB, c.m, false); mis != nil {
 		vfhelp.Fail(c.t, c.tr.Name+"-"+mis.Sig, "[%s] after %s: %s%s", c.tr.Name, after, mis.Msg, history(c.ops))
 	}
 	return true
